@@ -399,7 +399,7 @@ pub fn run(ctx: &mut Ctx) {
             Some(list)
         };
         // cwd
-        let cwd = match rng.below(5) {
+        let cwd = match rng.below(6) {
             0 => {
                 let d = ctx.work.join(format!("cwd dir {}", i % 7));
                 let _ = std::fs::create_dir_all(&d);
@@ -411,6 +411,16 @@ pub fn run(ctx: &mut Ctx) {
                 Some(PathBuf::from("rel/sub dir"))
             }
             2 => Some(PathBuf::from("/")),
+            3 => {
+                // a directory only the caller may enter (mode 0700): the working directory is the caller's request, made
+                // with the caller's rights, whoever the child then becomes
+                use std::os::unix::fs::PermissionsExt;
+                let d = ctx.work.join(format!("private cwd {}", i % 3));
+                let _ = std::fs::create_dir_all(&d);
+                let _ = std::fs::set_permissions(&d, std::fs::Permissions::from_mode(0o700));
+                ctx.count("launches_into_a_working_directory_only_the_caller_may_enter", 1);
+                Some(d)
+            }
             _ => None,
         };
         // identity: one of the combinations, all of them over time
